@@ -81,6 +81,10 @@ pub struct CellSpec {
     pub row: u32,
     pub value: ValueSpec,
     pub formula: Option<String>,
+    /// place the cell as a ready-made `Cell` through `Worksheet::set_cell` instead of
+    /// filling the one `get_cell_mut` returns (both are public ways to build a workbook)
+    #[serde(default)]
+    pub via_set_cell: bool,
 }
 
 #[derive(Debug, Clone, Serialize, Deserialize, PartialEq)]
@@ -159,6 +163,16 @@ pub fn build(spec: &WbSpec) -> Spreadsheet {
     for s in &spec.sheets {
         let sheet = book.new_sheet(s.name.clone()).expect("generator produces distinct legal names");
         for c in &s.cells {
+            if c.via_set_cell {
+                let mut cell = umya_spreadsheet::Cell::default();
+                cell.get_coordinate_mut().set_col_num(c.col).set_row_num(c.row);
+                apply_value(&mut cell, &c.value);
+                if let Some(f) = &c.formula {
+                    cell.set_formula(f.clone());
+                }
+                sheet.set_cell(cell);
+                continue;
+            }
             let cell = sheet.get_cell_mut((c.col, c.row));
             apply_value(cell, &c.value);
             if let Some(f) = &c.formula {
@@ -263,12 +277,12 @@ pub fn value_spec(max_text: usize) -> BoxedStrategy<ValueSpec> {
 }
 
 pub fn cell_spec(max_text: usize) -> BoxedStrategy<CellSpec> {
-    (col_pos(), row_pos(), value_spec(max_text), prop::option::weighted(0.25, simple_formula()))
-        .prop_map(|(col, row, value, formula)| {
+    (col_pos(), row_pos(), value_spec(max_text), prop::option::weighted(0.25, simple_formula()), prop::bool::weighted(0.2))
+        .prop_map(|(col, row, value, formula, via_set_cell)| {
             // a formula's cached result is a plain value in the file format: rich text cannot
             // be a cached result, so that combination is not generated
             let formula = if matches!(value, ValueSpec::Rich(_)) { None } else { formula };
-            CellSpec { col, row, value, formula }
+            CellSpec { col, row, value, formula, via_set_cell }
         })
         .boxed()
 }
